@@ -396,12 +396,25 @@ class FnBounds:
             return True
         return False
 
+    @staticmethod
+    def _unit(ts):
+        """rewrite coefficients |c| > 1 as composite atomic terms 'c*t'"""
+        out = {}
+        for t, v in ts.items():
+            if abs(v) > 1:
+                ct = "%d*%s" % (abs(v), t)
+                out[ct] = out.get(ct, 0) + (1 if v > 0 else -1)
+            else:
+                out[t] = out.get(t, 0) + v
+        return {t: v for t, v in out.items() if v}
+
     def add_le(self, F, a, b):
         """add fact  a <= b  for linear forms a, b (only difference shapes)"""
         d = lin_add(a, b, -1)
         if d is None:
             return
         ts, c = d
+        ts = self._unit(ts)
         pos = [t for t, v in ts.items() if v == 1]
         neg = [t for t, v in ts.items() if v == -1]
         if len(ts) == len(pos) + len(neg):
@@ -411,6 +424,33 @@ class FnBounds:
                 F.add(pos[0], ZERO, -c)
             elif len(neg) == 1 and not pos:
                 F.add(ZERO, neg[0], -c)
+
+    def saturate_scaled(self, F, extra_terms=()):
+        """link composite terms 'c*t' with their base t: bounds carry over by
+        (floor/ceil) division and multiplication"""
+        comps = {}
+        for t in set(F.terms()) | set(extra_terms):
+            m = re.match(r"^(\d+)\*(.+)$", t)
+            if m:
+                comps[t] = (int(m.group(1)), m.group(2))
+        if not comps:
+            return F
+        F2 = F.copy()
+        for _ in range(2):
+            for ct, (c, t) in comps.items():
+                ub = F2.dist(ct, ZERO, self.nonneg)
+                if ub < INF:
+                    F2.add(t, ZERO, ub // c)
+                lb = F2.dist(ZERO, ct, self.nonneg)       # 0 <= ct + lb
+                if lb < INF:
+                    F2.add(ZERO, t, -(-(-lb) // c) if False else -((-lb + c - 1) // c))
+                ubt = F2.dist(t, ZERO, self.nonneg)
+                if ubt < INF:
+                    F2.add(ct, ZERO, ubt * c)
+                lbt = F2.dist(ZERO, t, self.nonneg)
+                if lbt < INF:
+                    F2.add(ZERO, ct, lbt * c)
+        return F2
 
     def with_invariants(self, F, extra_terms=()):
         inv = self.eng.invariants
@@ -433,8 +473,10 @@ class FnBounds:
         d = lin_add(a, b, -1)
         if d is None:
             return False
-        F = self.with_invariants(F, d[0].keys())
         ts, c = d
+        ts = self._unit(ts)
+        F = self.with_invariants(F, list(d[0].keys()) + list(ts.keys()))
+        F = self.saturate_scaled(F, ts.keys())
         if not ts:
             return c <= 0
         pos = [t for t, v in ts.items() if v == 1]
@@ -793,6 +835,7 @@ class Engine:
         self.post = {}                      # callee name -> fn(FnBounds, Facts, call nid) -> Facts
         self.inline = {}                    # callee name -> fn(FnBounds, call nid) -> lin
         self.entry_contracts = {}           # Function -> list of (lhs lin over param names, rhs lin)
+        self.narrow_scope = None            # Function -> bool: narrowing integer conversions are obligations
         self.invariants = {}                # (record, field) -> (lo, hi): assumed everywhere, checked at stores
         self._mod = None
 
@@ -1087,6 +1130,8 @@ class Engine:
                     goals.append(g)
             if self.invariants and (n["k"] == "bin" and n["op"] in ("=", "+=", "-=") or n["k"] == "un" and n["op"] in ("++", "--", "post++", "post--")):
                 goals += self._invariant_goals(fb, e)
+            if n["k"] == "cast" and n.get("ck") == "IntegralCast" and self.narrow_scope and self.narrow_scope(f):
+                goals += self._narrow_goals(fb, e)
             for g in goals:
                 self.stats["goals"] += 1
                 F = fb.before.get(e, Facts())
@@ -1250,12 +1295,48 @@ class Engine:
         fb.nonneg.add(t)
         return lin_term(t)
 
+    def _narrow_goals(self, fb, nid):
+        """an integer conversion to a narrower type must preserve the value"""
+        f = fb.fn
+        n = f.nodes[nid]
+        sub = f.nodes[n["sub"]]
+        dsz, ssz = n.get("sz"), sub.get("sz")
+        if not dsz or not ssz or dsz >= ssz or "cv" in n or "cv" in sub:
+            return []
+        if (n.get("t") or "") in ("_Bool", "bool"):
+            return []
+        if n.get("uns"):
+            lo, hi = 0, (1 << (8 * dsz)) - 1
+        else:
+            lo, hi = -(1 << (8 * dsz - 1)), (1 << (8 * dsz - 1)) - 1
+        L = fb.lin(n["sub"])
+        desc = "narrowing (%s)%s" % (n.get("t"), f.show(n["sub"])[:40])
+        out = [(L, lin_const(hi), self._origin(f, nid, desc + " <= %d" % hi))]
+        out.append((lin_const(lo), L, self._origin(f, nid, desc + " >= %d" % lo)))
+        return out
+
     def _invariant_goals(self, fb, nid):
         """a store to a field with a declared record invariant must re-establish it"""
         f = fb.fn
         n = f.nodes[nid]
         lhs = n["l"] if n["k"] == "bin" else n["sub"]
         ln = f.sn(lhs)
+        if n["k"] == "bin" and n["op"] == "=":
+            rn = f.sn(n["r"])
+            if rn["k"] == "compound":
+                rn = f.sn(rn["sub"])
+            if rn["k"] == "init" and rn.get("record") and any(k[0] == rn["record"] for k in self.invariants):
+                out = []
+                for fld, e in zip(rn.get("fields", []), rn["elems"]):
+                    inv = self.invariants.get((rn["record"], fld))
+                    if not inv:
+                        continue
+                    v = fb.lin(e)
+                    if inv[1] is not None:
+                        out.append((v, lin_const(inv[1]), self._origin(f, nid, "invariant %s.%s<=%d at initialiser" % (rn["record"], fld, inv[1]))))
+                    if inv[0] is not None:
+                        out.append((lin_const(inv[0]), v, self._origin(f, nid, "invariant %s.%s>=%d at initialiser" % (rn["record"], fld, inv[0]))))
+                return out
         if ln["k"] != "member" or (ln.get("record"), ln["field"]) not in self.invariants:
             return []
         lo, hi = self.invariants[(ln["record"], ln["field"])]
